@@ -17,11 +17,18 @@
   c11.guard   <route> obj         → ok 0|1                               (`Persist.restoreGuard`)
   c11.follow  obj op              → ok <vals> <unit|none> | err <Name>   (`Persist.follow`)
   c11.prog    obj <n> op…  op     → same, `Persist.runProg` (n object-returning steps, then the last op)
+  c11.origins                     → ok <origin>/<route>=<18 flags> …     (the regenerated per-origin table)
+  c11.restoreAt <origin> <route> obj → ok obj | err <Name> | err no-row  (`Persist.restoreAt` over base rows + per-origin rows)
+  c11.guardAt   <origin> <route> obj → ok 0|1                            (`Persist.guardAt`)
+  c11.chain <origin> obj <n> (<rows> <noncanon keys> <route>)×n          (`Persist.restoreChain`: add rows, persist, load, …)
+                                  → ok <final origin> <guard 0|1> obj | err <Name> | err no-row
 -/
 import UnytModel.DriverBase
 import UnytModel.SystemTables
 import UnytModel.Persist
 import UnytModel.Generated.PersistRoutes
+import UnytModel.PersistChain
+import UnytModel.Generated.PersistOrigins
 
 namespace Unyt
 open Unyt.Persist
@@ -143,6 +150,22 @@ def fctx (st : DriverState) : FCtx Float :=
   { T := Ufunc.Tables.generated, pre := st.pre, ueq := UnitV.eqFloat, simp := fun u => (1, u),
     em := defaultEm Float, systems := builtinSystems Float, kern := kern }
 
+/-- the table the chain model runs with: the base rows (origin `built`) and the per-origin rows -/
+def originTable : OriginTable := OriginTable.ofRoutes Generated.persistRoutes ++ Generated.persistOrigins
+
+def parseOrigin (s : String) : Option Origin :=
+  if s == "built" then some .built else (Route.ofName s).map .via
+
+def pSteps : Nat → List String → Option (List (Step Float) × List String)
+  | 0, rest => some ([], rest)
+  | n + 1, rows :: non :: route :: rest => do
+    let rows ← parseRows rows
+    let r ← Route.ofName route
+    let tail ← pSteps n rest
+    let isNon (k : String) : Bool := non == "*" || (keys non).contains k
+    some (⟨rows.map fun p => (p.1, ⟨p.2, !isNon p.1⟩), r⟩ :: tail.1, tail.2)
+  | _, _ => none
+
 def resStr (r : Except Err (Res Float)) : String :=
   match r with
   | .error e => s!"err\t{e.str}"
@@ -177,6 +200,36 @@ def opsC11 : Handler := fun st fields =>
       match Generated.persistRoutes.get r with
       | none => some (st, "err\tno-such-route")
       | some cfg => some (st, s!"ok\t{if restoreGuard EqTests.float cfg st.pre dflt x then 1 else 0}")
+    | _, _ => none
+  | ["c11.origins"] =>
+    some (st, "ok\t" ++ "\t".intercalate (Generated.persistOrigins.map fun p => s!"{p.1.1.name}/{p.1.2.name}={flagsStr p.2}"))
+  | "c11.restoreAt" :: origin :: route :: rest =>
+    match parseOrigin origin, Route.ofName route, pObj dflt rest with
+    | some o, some r, some (x, []) =>
+      match restoreAt originTable st.pre dflt o r x with
+      | none => some (st, "err\tno-row")
+      | some (.ok y) => some (st, "ok\t" ++ objStr dflt y)
+      | some (.error e) => some (st, s!"err\t{e.str}")
+    | _, _, _ => none
+  | "c11.guardAt" :: origin :: route :: rest =>
+    match parseOrigin origin, Route.ofName route, pObj dflt rest with
+    | some o, some r, some (x, []) =>
+      some (st, s!"ok\t{if guardAt EqTests.float originTable st.pre dflt o r x then 1 else 0}")
+    | _, _, _ => none
+  | "c11.chain" :: origin :: rest =>
+    match parseOrigin origin, pObj dflt rest with
+    | some o, some (x, n :: rest') =>
+      match n.toNat? with
+      | some n =>
+        match pSteps n rest' with
+        | some (steps, []) =>
+          match restoreChain originTable st.pre dflt steps o x with
+          | none => some (st, "err\tno-row")
+          | some (.error e) => some (st, s!"err\t{e.str}")
+          | some (.ok (o', y)) =>
+            some (st, s!"ok\t{o'.name}\t{if chainGuard EqTests.float originTable st.pre dflt steps o x then 1 else 0}\t" ++ objStr dflt y)
+        | _ => none
+      | none => none
     | _, _ => none
   | "c11.follow" :: rest =>
     match pObj dflt rest with
